@@ -31,6 +31,8 @@ static void float_case(int width, uint64_t pat, bool item_path) {
     for (int i = 0; i < width; i++) want_enc[1 + i] = (uint8_t)(c >> (8 * (width - 1 - i)));
     g_nan_cases++;
   }
+  /* the result must not depend on ambient thread state (stale errno, rounding mode): every value involved is exactly representable */
+  vh_ambient_scramble(vh_hash_mix(pat, (uint64_t)width) >> 7);
   /* ---- streaming path */
   int ctx;
   rec_expected_ctx = &ctx;
@@ -98,6 +100,7 @@ static void float_case(int width, uint64_t pat, bool item_path) {
     }
     g_item_path++;
   }
+  vh_ambient_restore();
   free(buf);
   if (g_by_construction) vh_nontrivial_distinct(); else vh_nontrivial(vh_hash(desc, 10));
 }
